@@ -414,7 +414,11 @@ impl<'a> Gen<'a> {
         }
     }
     pub fn bad_op(&mut self) -> BadOp {
-        match self.rng.below(25) {
+        match self.rng.below(31) {
+            25 | 26 => BadOp::ZeroIdxOtherHash,
+            27 | 28 => BadOp::ZeroIdxExistingHash,
+            29 => BadOp::OtherHashAndTimestamp,
+            30 => BadOp::WrongIdxOtherTimestamp,
             21 => BadOp::BothEncodingsHexBad,
             22 => BadOp::BothEncodingsB64Bad,
             23 | 24 => BadOp::FinaliseExistingHash,
